@@ -45,6 +45,8 @@ class Ctx(object):
         self.loops = []         # symbolic loops executed at a generic index: (k, lo, hi)
         self.ranges = {}        # generic index id -> its range condition
         self.equated = set()
+        self.atom_deps = {}     # id of an atom constant -> ids of the generic indices its value depends on
+        self.expanding = []     # atoms whose summand is being re-evaluated (guards against mutual re-evaluation)
         self.all_axes = []
         self.axis_hooks = {}    # id(axis) -> [fn(index term)]: facts instantiated at every index term of the axis
         self.axis_terms = {}    # id(axis) -> [index terms seen]
@@ -1428,6 +1430,17 @@ def _conv(dtype, x):
 # ----------------------------------------------------------------------------------------------
 # Reduction atoms
 # ----------------------------------------------------------------------------------------------
+def _expand(at, idx):
+    """re-evaluate the summand of atom `at` at idx; None while `at` is already being expanded further up"""
+    if id(at) in CTX.expanding:
+        return None
+    CTX.expanding.append(id(at))
+    try:
+        return at.fn(idx)
+    finally:
+        CTX.expanding.pop()
+
+
 class Atom(object):
     def __init__(self, kind, axes, fn, const, extra=None):
         self.kind = kind        # 'sum' | 'fn:<name>'
@@ -1488,7 +1501,9 @@ def sum_atom(axes, term_fn, integer=False):
     matches = []
     for at in CTX.atoms:
         if at.kind == "sum" and len(at.axes) == len(axes) and all(a is b for a, b in zip(at.axes, axes)) and at.extra == integer:
-            t2 = at.fn(idx)
+            t2 = _expand(at, idx)
+            if t2 is None:
+                continue
             t2 = toz(t2, "int" if integer else "real")
             if not integer and z3.is_int(t2):
                 t2 = z3.ToReal(t2)
@@ -1507,6 +1522,7 @@ def sum_atom(axes, term_fn, integer=False):
         return matches[0].const
     c = CTX.fresh("sum", "int" if integer else "real")
     at = Atom("sum", tuple(axes), term_fn, c, extra=integer)
+    CTX.atom_deps[c.get_id()] = _free_index_ids(ts) - {i.get_id() for i in idx}
     # a sum over an empty index domain is 0
     CTX.facts.append(z3.Implies(z3.Or(*[ax.size.v <= 0 for ax in axes]), c == 0))
     if eng.entails(z3.Implies(R, t >= 0)):
@@ -1521,7 +1537,10 @@ def sum_atom(axes, term_fn, integer=False):
         for other in CTX.atoms:
             if other.kind != "sum" or not other.nonneg or not _same_domains(other.axes, at.axes):
                 continue
-            t2 = toz(other.fn(idx), "int" if other.extra else "real")
+            t2 = _expand(other, idx)
+            if t2 is None:
+                continue
+            t2 = toz(t2, "int" if other.extra else "real")
             if _free_index_ids(z3.simplify(t2)) - {i.get_id() for i in idx} != mine - {i.get_id() for i in idx}:
                 continue
             a1 = z3.ToReal(t) if z3.is_int(t) else t
@@ -1582,7 +1601,9 @@ def pointwise_equal(eng, R, t, t2):
 
 
 def _free_index_ids(term):
-    """ids of the generic-index constants (those with a registered range) occurring in term"""
+    """ids of the generic-index constants (those with a registered range) that term depends on -- directly, or
+    through an atom constant that was created for a particular value of such an index (atoms created while a
+    summand is evaluated at a bound index are functions of that index, although they are z3 constants)"""
     out = set()
     seen = set()
     stack = [term]
@@ -1593,23 +1614,16 @@ def _free_index_ids(term):
         seen.add(t.get_id())
         if t.get_id() in CTX.ranges:
             out.add(t.get_id())
+        d = CTX.atom_deps.get(t.get_id())
+        if d:
+            out |= d
         stack.extend(t.children())
     return out
 
 
 def _mentions(term, idx):
     ids = {i.get_id() for i in idx}
-    seen = set()
-    stack = [term]
-    while stack:
-        t = stack.pop()
-        if t.get_id() in seen:
-            continue
-        seen.add(t.get_id())
-        if t.get_id() in ids:
-            return True
-        stack.extend(t.children())
-    return False
+    return bool(_free_index_ids(term) & ids)
 
 
 def count_atom(axes, cond_fn):
@@ -1632,7 +1646,10 @@ def instantiate_atoms(idx_by_axes):
                 if key in at.linked:
                     continue
                 at.linked.add(key)
-                t = toz(at.fn(idx), "int" if at.extra else "real")
+                t = _expand(at, idx)
+                if t is None:
+                    continue
+                t = toz(t, "int" if at.extra else "real")
                 out.append(z3.Implies(rng(idx), at.const >= t))
     return out
 
@@ -1646,7 +1663,10 @@ def refresh_atoms(eng):
         for f in instantiate_atoms([(tuple(at.axes), idx)]):
             CTX.facts.append(f)
         R = rng(idx)
-        t = toz(at.fn(idx), "int" if at.extra else "real")
+        t = _expand(at, idx)
+        if t is None:
+            continue
+        t = toz(t, "int" if at.extra else "real")
         key0 = ("zero", at.const.get_id())
         if key0 not in CTX.equated and pointwise_equal(eng, R, t, toz(0, "int" if at.extra else "real")):
             CTX.equated.add(key0)
@@ -1657,7 +1677,10 @@ def refresh_atoms(eng):
             key = (at.const.get_id(), other.const.get_id())
             if key in CTX.equated:
                 continue
-            t2 = toz(other.fn(idx), "int" if other.extra else "real")
+            t2 = _expand(other, idx)
+            if t2 is None:
+                continue
+            t2 = toz(t2, "int" if other.extra else "real")
             if pointwise_equal(eng, R, t, t2):
                 CTX.equated.add(key)
                 CTX.facts.append(at.const == other.const)
@@ -1697,6 +1720,17 @@ def fn_atom(name, arrs, params=(), kinds=(FIN, NAN, PINF, NINF)):
                 return at.const
     ck = CTX.fresh("fk_" + name, "int")
     cv = CTX.fresh("fv_" + name, "real")
+    deps = set()
+    for a_ in arrs:
+        e_ = SNum.lift(_numof(a_._snapshot()(idx)))
+        deps |= _free_index_ids(e_.rv())
+        if not isinstance(e_.k, int):
+            deps |= _free_index_ids(e_.k)
+        if a_.sel is not None:
+            deps |= _free_index_ids(bz(a_.sel(idx)))
+    deps -= {i.get_id() for i in idx}
+    CTX.atom_deps[ck.get_id()] = deps
+    CTX.atom_deps[cv.get_id()] = deps
     res = SNum(ck, cv) if len(kinds) > 1 else SNum(kinds[0], cv)
     if len(kinds) > 1:
         CTX.facts.append(z3.Or(*[ck == k for k in kinds]))
